@@ -46,6 +46,12 @@ CLAIMED = {
  "C15": ("id-domain typing of map keys over go/ssa",
          "One clause only: SPS maps are keyed by SPS-domain ids and PPS maps by PPS-domain ids at every lookup and insertion (avc, hevc, mp4/crypto, cmd tools). Parsed values, cropping formula, slice-header length, codec strings are NOT decided.",
          "the id-domain table is frozen from the field declarations.", "DESIGN.md §4 C15"),
+ "C17": ("wire-layout abstract interpretation at bit level for typed SEI messages; state-restore rule; ordering/dependence for the SEI writer",
+         "Structural part only: for SEI 136/137/144, Payload() executed on the decoded abstract value reproduces every bit the decoder kept (plus alignment bits) under every flag/count configuration, and no value bit falls beyond Size(); MoreRbspData restores every reader field that Read modifies; WriteSEIMessages writes type, size, then the payload bytes; pass-through messages return the stored payload. Not decided: emulation prevention and trailing-bit detection arithmetic, AVC pic timing (external HRD parameters), message lists with types/sizes >= 255.",
+         "as C01; counts of at most 6 bits are enumerated over their full range.", "DESIGN.md §4 C17"),
+ "C18": ("inverse-table check on map literals; wire-layout abstract interpretation at bit level for AudioSpecificConfig; data-dependence for SetAACDescriptor",
+         "Structural part only: FrequencyTable and ReverseFrequencies are mutual inverses (complete over the literals); AudioSpecificConfig.Encode executed on the decoded abstract value reproduces every bit read, for every object type / frequency index (incl. the 24-bit escape with non-table frequencies) / SBR configuration; the esds decoder-specific info depends on the encoded configuration. ADTS is covered only by the table rule (its decoder is a sync-search loop). Numeric exhaustiveness over the domain is another technique family's job.",
+         "as C01; a table frequency coded with the 24-bit escape is excluded as a non-canonical encoding (the property is stated for encode-then-decode).", "DESIGN.md §4 C18"),
  "C19": ("data-dependence / dominance obligations and a parameter-forwarding rule over go/ssa, error discipline",
          "Narrow clauses only: in AddEmptyTrack trak and trex get the same id derived from the track count, NextTrackID is stored unconditionally from it, both are attached on every path; same-named same-typed parameters are forwarded to each other in the init-segment API; descriptor-builder errors are looked at on every path. Not decided: equality of the built tree after encode/decode, golden files.",
          "forwarding rule is name-based (same name and identical type).", "DESIGN.md §4 C19"),
